@@ -323,3 +323,12 @@ contract('PartHandler.give_part@PartBatcher', props=['C17', 'C02'], for_cls=['Pa
              empty_batch_is_discarded=
              f'implies(result and not {GP_NONEMPTY}, g_k == 0 and self._part is None and self._output is None and '
              '  self._in_progress_batch is old(self._in_progress_batch))'))
+
+# --------------------------------------------------------------------------- a batch is worth the sum of what it contains
+# (each contained item through its own `value` property: a nested batch contributes the value of its parts, not its field)
+contract('Batch.value', props=['C16', 'C17'], args={}, result='real', invariants=False,
+         requires={'parts_exist': 'self.parts is not None and alive(self.parts) and '
+                                  'all(p is not None and alive(p) for p in self.parts)'},
+         # old(): the getter allocates a temporary list; the value of a nested batch is an uninterpreted function of the heap
+         ensures={'sum_of_the_values_of_the_contained_items': 'result == old(sum(asset_value(p) for p in self.parts))'},
+         modifies=[])
